@@ -426,6 +426,10 @@ impl WorldB {
             if let Some(k) = kind {
                 let p = if ptype == T_PAYLOAD && !bogus { "C04" } else { "C07" };
                 obs.violate(p, "unauthentic-datagram-had-effect", &format!("{}/{}/{}", why, k, tname(ptype)), format!("datagram {} from {} ({:?})", ix, src, producer));
+                if p != "C04" && k == "payload-surfaced" {
+                    // whatever else it is, a payload that surfaces from a datagram that cannot be authentic is a C04 matter too
+                    obs.violate("C04", "unauthentic-datagram-had-effect", &format!("{}/{}/{}", why, k, tname(ptype)), format!("datagram {} from {} ({:?})", ix, src, producer));
+                }
             }
             if snap_before != snap_after && kind.is_none() {
                 let pending_changed = snap_before.pending != snap_after.pending;
@@ -588,6 +592,13 @@ impl WorldB {
                     }
                 } else if pt == T_DENIED {
                     obs.count("probe.denied_sent");
+                    // a refusal for lack of room is decided after the token was entered into the table: the token is bound to
+                    // the address that presented it although no challenge went out
+                    if let Some(t) = tid {
+                        if self.tokens[t].first_addr.is_none() {
+                            self.tokens[t].first_addr = Some(addr);
+                        }
+                    }
                 }
             }
             Res::Payload { id, bytes } => {
